@@ -332,7 +332,8 @@ def gen_fit(tier, seed):
             colorder = names[:]
             rng.shuffle(colorder)
             k += 1
-            yield {"nodes": nodes, "edges": edges, "cols": {v: [str(x) for x in cols[v]] for v in colorder}, "extra": k % 3 == 0}
+            yield {"nodes": nodes, "edges": edges, "cols": {v: [str(x) for x in cols[v]] for v in colorder}, "extra": k % 3 == 0,
+                   "index": ("default", "reversed", "labels", "offset")[k % 4]}
 
 
 def ols(y, Xcols):
@@ -364,6 +365,14 @@ def check_fit(case):
     if case["extra"]:
         data["unused_column"] = [float(i * i) for i in range(n)]
     df = pd.DataFrame(data)
+    # row labels carry no meaning for least squares: reversed / string / offset labels must give the same estimates
+    ix = case.get("index", "default")
+    if ix == "reversed":
+        df.index = list(range(n - 1, -1, -1))
+    elif ix == "labels":
+        df.index = [f"row{(7 * i) % n if n % 7 else i}_{i}" for i in range(n)]
+    elif ix == "offset":
+        df.index = [i + 3 for i in range(n)]
     snap = df.copy(deep=True)
     m = make_lgbn({"nodes": nodes, "edges": edges}, with_cpds=False)
     r = m.fit(df)
@@ -777,7 +786,7 @@ def groups(tier):
               bound="models with >= 3 nodes (quick: every 9th four-node DAG): conditional covariance matrix for every subset of >= 2 missing variables"),
         Group("fit", gen_fit, check_fit, lambda c: len(c["edges"]) >= 1, engine="E3",
               bound="every DAG <= 3 nodes + 12 (200) four-node DAGs, exact integer / half-integer data sets with 6-12 rows (rank-deficient designs "
-                    "skipped), shuffled and extra columns; residual variance convention RSS/(n-1)"),
+                    "skipped), shuffled and extra columns; default / reversed / string / offset row labels; residual variance convention RSS/(n-1)"),
         Group("simulate", gen_models, check_simulate, nt, engine="E3",
               bound=mb + "; n=4000 draws: same seed twice, other seed, column set, per-column mean within 8 standard errors, variance within 25%"),
         Group("gaussian_ops", gen_gauss, check_gaussian_ops, lambda c: len(c["g1"]["vars"]) >= 2, engine="E3",
